@@ -92,7 +92,8 @@ class Calls:
                 return f.fn, list(f.bindings) + args[1:]
             if f.bound:
                 return f.bound, list(f.bindings) + args[1:]
-        return "dyncall", args
+            return "dyn." + (short(f.t).rsplit("/", 1)[-1].rsplit(".", 1)[-1] if f.t and "func(" not in short(f.t) else "func"), args
+        return "dyn.func", args
 
     def pack(self, sig_results, vals):
         if len(sig_results) == 0:
@@ -279,6 +280,7 @@ class Calls:
                         if icl.kind == "invariant" and icl.ast is not None and icl.extra.get("lock") not in held:
                             ictx = SpecCtx(self, st, st, {"self": selfv}, fr_pkg=dti.pkg)
                             ictx.pol = -1
+                            ictx.token_obj = (args[0], rt)
                             st.assume(to_bool(ictx.eval(icl.ast)))
                 except (Unsupported, Exception):
                     pass
@@ -351,6 +353,10 @@ class Calls:
             return st.fresh(v.t, "hv")
         if isinstance(v, MapV):
             return v
+        if isinstance(v, FuncV):
+            return FuncV(ref=z3.Const(fresh_name("hvfn"), Ref), t=v.t)
+        if isinstance(v, ChanV):
+            return ChanV(v.t, z3.Const(fresh_name("hvch"), Ref), z3.Const(fresh_name("hvchnil"), z3.BoolSort()))
         raise Unsupported("havoc %r" % type(v))
 
     # ------------------------------------------------------------------ builtins
